@@ -50,6 +50,7 @@ def catalog():
         pathlib=True, discard=True)
     add('cross_split', like='cross', n_live=100, n_batch=25, n_eff=100, f_live=0.1, n_points_min=6,
         split_threshold=1.0)
+    add('corr', like='corr', n_live=60, n_batch=20, n_eff=100, f_live=0.1)
     add('vec_pool', like='gauss', blob='float', vectorized=True, pool_l=2, n_live=30, n_batch=14,
         n_eff=80, f_live=0.1)
     add('enlarge25', like='gauss', n_live=40, n_batch=20, n_eff=20, f_live=0.1, enlarge_per_dim=2.5,
